@@ -37,6 +37,7 @@ func main() {
 	loop := flag.Int("loop", 64, "loop unwinding bound")
 	steps := flag.Int("steps", 2000000, "instruction budget per path")
 	list := flag.Bool("list", false, "list harnesses and exit")
+	full := flag.Bool("full-models", false, "evaluate all UF applications in counterexample models")
 	flag.Parse()
 
 	overlay := map[string][]byte{}
@@ -53,7 +54,7 @@ func main() {
 	if err != nil {
 		fail(*out, err)
 	}
-	cfg := &sym.Config{MaxSteps: *steps, LoopBound: *loop, MaxDepth: 200, Bounds: map[string]int{}, Solvers: strings.Split(*solvers, ","), TimeoutMs: *timeout}
+	cfg := &sym.Config{MaxSteps: *steps, LoopBound: *loop, MaxDepth: 200, Bounds: map[string]int{}, Solvers: strings.Split(*solvers, ","), TimeoutMs: *timeout, FullModels: *full}
 	for _, kv := range strings.Split(*bounds, ",") {
 		if kv == "" {
 			continue
